@@ -5,8 +5,6 @@ use std::{
     num::NonZeroUsize,
 };
 
-use flate2::bufread::MultiGzDecoder;
-
 use noodles_bgzf as bgzf;
 
 use crate::{input, Input};
@@ -45,35 +43,45 @@ impl Builder {
         }
     }
 
-    fn build_from_reader<R>(self, mut reader: R) -> io::Result<super::DynReader>
+    fn build_from_reader<R>(self, reader: R) -> io::Result<super::DynReader>
     where
         R: 'static + io::BufRead,
     {
-        let compression_method = match self.compression_method {
-            Some(compression_method) => compression_method,
-            None => CompressionMethod::detect(&mut reader)?,
+        let (compression_method, reader) = match self.compression_method {
+            Some(compression_method) => (compression_method, peek(reader, 0)?.1),
+            None => {
+                let (start, reader) = peek(reader, GZIP_MAGIC_NUMBER.len())?;
+                (CompressionMethod::detect(&start), reader)
+            }
         };
 
-        let format = match self.format {
-            Some(format) => format,
-            None => Format::detect(&mut reader, compression_method)?,
-        };
-
-        let reader: super::DynReader = match compression_method {
+        match compression_method {
             Some(CompressionMethod::Bgzf) => {
                 let bgzf_reader = bgzf::reader::Builder::default()
                     .set_worker_count(self.threads)
                     .build_from_reader(reader);
 
-                match format {
-                    Format::Bcf => super::bcf::Reader::new(bgzf_reader).map(Box::new)?,
-                    Format::Vcf => super::vcf::Reader::new(bgzf_reader).map(Box::new)?,
-                }
+                self.build_from_uncompressed_reader(bgzf_reader)
             }
-            None => match format {
-                Format::Bcf => super::bcf::Reader::new(reader).map(Box::new)?,
-                Format::Vcf => super::vcf::Reader::new(reader).map(Box::new)?,
-            },
+            None => self.build_from_uncompressed_reader(reader),
+        }
+    }
+
+    fn build_from_uncompressed_reader<R>(self, reader: R) -> io::Result<super::DynReader>
+    where
+        R: 'static + io::BufRead,
+    {
+        let (format, reader) = match self.format {
+            Some(format) => (format, peek(reader, 0)?.1),
+            None => {
+                let (start, reader) = peek(reader, BCF_MAGIC_NUMBER.len())?;
+                (Format::detect(&start), reader)
+            }
+        };
+
+        let reader: super::DynReader = match format {
+            Format::Bcf => super::bcf::Reader::new(reader).map(Box::new)?,
+            Format::Vcf => super::vcf::Reader::new(reader).map(Box::new)?,
         };
 
         Ok(reader)
@@ -134,34 +142,13 @@ pub enum Format {
 }
 
 impl Format {
-    fn detect<R>(
-        reader: &mut R,
-        compression_method: Option<CompressionMethod>,
-    ) -> io::Result<Format>
-    where
-        R: io::BufRead,
-    {
-        const BCF_MAGIC_NUMBER: [u8; 3] = *b"BCF";
-
-        let src = reader.fill_buf()?;
-
-        if let Some(compression_method) = compression_method {
-            if compression_method == CompressionMethod::Bgzf {
-                let mut decoder = MultiGzDecoder::new(src);
-                let mut buf = [0; BCF_MAGIC_NUMBER.len()];
-                decoder.read_exact(&mut buf)?;
-
-                if buf == BCF_MAGIC_NUMBER {
-                    return Ok(Format::Bcf);
-                }
-            }
-        } else if let Some(buf) = src.get(..BCF_MAGIC_NUMBER.len()) {
-            if buf == BCF_MAGIC_NUMBER {
-                return Ok(Format::Bcf);
-            }
+    /// Detects the format from the first bytes of the (uncompressed) input.
+    fn detect(start: &[u8]) -> Self {
+        if start.starts_with(&BCF_MAGIC_NUMBER) {
+            Format::Bcf
+        } else {
+            Format::Vcf
         }
-
-        Ok(Format::Vcf)
     }
 }
 
@@ -173,20 +160,29 @@ pub enum CompressionMethod {
 }
 
 impl CompressionMethod {
-    fn detect<R>(reader: &mut R) -> io::Result<Option<Self>>
-    where
-        R: io::BufRead,
-    {
-        const GZIP_MAGIC_NUMBER: [u8; 2] = [0x1f, 0x8b];
-
-        let src = reader.fill_buf()?;
-
-        if let Some(buf) = src.get(..GZIP_MAGIC_NUMBER.len()) {
-            if buf == GZIP_MAGIC_NUMBER {
-                return Ok(Some(CompressionMethod::Bgzf));
-            }
-        }
-
-        Ok(None)
+    /// Detects the compression method from the first bytes of the input.
+    fn detect(start: &[u8]) -> Option<Self> {
+        start
+            .starts_with(&GZIP_MAGIC_NUMBER)
+            .then_some(CompressionMethod::Bgzf)
     }
+}
+
+const BCF_MAGIC_NUMBER: [u8; 3] = *b"BCF";
+const GZIP_MAGIC_NUMBER: [u8; 2] = [0x1f, 0x8b];
+
+/// Reads up to `n` bytes from the start of the reader, and returns them along with a reader that
+/// yields those same bytes again, followed by the remaining input.
+///
+/// Note that a single call to `fill_buf` may return fewer bytes than required to detect the
+/// format or compression (e.g. when reading from a pipe), so this reads until `n` bytes are
+/// available or the input ends.
+fn peek<R>(mut reader: R, n: usize) -> io::Result<(Vec<u8>, io::Chain<io::Cursor<Vec<u8>>, R>)>
+where
+    R: io::BufRead,
+{
+    let mut start = Vec::with_capacity(n);
+    reader.by_ref().take(n as u64).read_to_end(&mut start)?;
+
+    Ok((start.clone(), io::Cursor::new(start).chain(reader)))
 }
